@@ -30,6 +30,9 @@ pub struct RFrame {
 pub enum Step {
     Feed(usize),
     Poll,
+    /// the consumer abandons the stream here (wherever it is suspended); what it did not take is then
+    /// received through the connection itself
+    Drop,
 }
 
 #[derive(Debug, Clone)]
@@ -45,7 +48,7 @@ impl Scenario {
     pub fn to_json(&self) -> Value {
         json!({"family":"chain","sid":self.sid,"calls":self.calls,"hold":self.hold,
             "frames": self.frames.iter().map(|f| json!({"call":f.call,"err":f.err,"cont":f.cont,"pad":f.pad})).collect::<Vec<_>>(),
-            "steps": self.steps.iter().map(|s| match s { Step::Feed(n) => json!(["feed", n]), Step::Poll => json!(["poll"]) }).collect::<Vec<_>>()})
+            "steps": self.steps.iter().map(|s| match s { Step::Feed(n) => json!(["feed", n]), Step::Poll => json!(["poll"]), Step::Drop => json!(["drop"]) }).collect::<Vec<_>>()})
     }
     pub fn from_json(v: &Value) -> Scenario {
         Scenario {
@@ -69,6 +72,7 @@ impl Scenario {
                     a.iter()
                         .map(|s| match s[0].as_str().unwrap() {
                             "feed" => Step::Feed(s[1].as_u64().unwrap() as usize),
+                            "drop" => Step::Drop,
                             _ => Step::Poll,
                         })
                         .collect()
@@ -237,6 +241,11 @@ pub fn run(sc: &Scenario, stats: &mut Stats) {
                     continue;
                 }
                 Some(Step::Poll) => {}
+                Some(Step::Drop) => {
+                    ev(json!({"ev":"stream_drop"}));
+                    ended = true;
+                    break;
+                }
                 None => {
                     // everything the server sent is now available
                     feed(usize::MAX / 2, &mut off);
@@ -458,6 +467,38 @@ fn gen_steps(r: &mut Rng, lens: &[usize], style: u64) -> Vec<Step> {
     steps
 }
 
+/// The stream is abandoned at every point of a two-reply exchange: before anything arrived, after every
+/// prefix of either reply (so also while it is suspended in the middle of a frame), between the replies.
+pub fn gen_drop_edges(r: &mut Rng, out: &mut Vec<Scenario>) {
+    for (v, kinds) in [["plain", "plain"], ["more", "plain"]].iter().enumerate() {
+        let calls: Vec<String> = kinds.iter().map(|k| k.to_string()).collect();
+        let frames = vec![
+            RFrame { call: 1, err: false, cont: v == 1, pad: r.range(0, 12) },
+            RFrame { call: if v == 1 { 1 } else { 2 }, err: v == 0 && r.chance(1, 3), cont: false, pad: r.range(0, 12) },
+        ];
+        let mut frames = frames;
+        if v == 1 {
+            frames.push(RFrame { call: 2, err: false, cont: false, pad: 3 });
+        }
+        let base = Scenario { sid: String::new(), calls, frames, steps: vec![], hold: false };
+        let lens = frame_lens(&base);
+        let total: usize = lens.iter().sum();
+        for c in 0..=total {
+            let mut sc = base.clone();
+            sc.sid = format!("d{v}-{c}");
+            // the first c bytes arrive (in one read, or byte-wise for every third cut), the consumer polls until the
+            // stream is suspended, then gives up
+            sc.steps = if c % 3 == 2 {
+                (0..c).flat_map(|_| [Step::Feed(1), Step::Poll]).collect()
+            } else {
+                vec![Step::Feed(c)]
+            };
+            sc.steps.extend([Step::Poll, Step::Poll, Step::Poll, Step::Poll, Step::Drop]);
+            out.push(sc);
+        }
+    }
+}
+
 pub fn gen_random(r: &mut Rng, sid: String, hold: bool) -> Scenario {
     let n = r.range(1, 6);
     let calls: Vec<String> = (0..n).map(|_| r.pick(&["plain", "oneway", "more"]).to_string()).collect();
@@ -475,6 +516,12 @@ pub fn gen_random(r: &mut Rng, sid: String, hold: bool) -> Scenario {
         st = 1;
     }
     sc.steps = gen_steps(r, &lens, st);
+    if !hold && r.chance(1, 5) && !sc.steps.is_empty() {
+        // the consumer gives up somewhere on the way
+        let at = r.range(0, sc.steps.len());
+        sc.steps.truncate(at);
+        sc.steps.push(Step::Drop);
+    }
     sc
 }
 
